@@ -165,6 +165,8 @@ template <template <class...> class GT, class L> void c13RoundTrip(int maxLen) {
                         h = res.first;
                     }
                     size_t want = expectedLoadedSize<G>(m);
+                    digest(readFile(file));
+                    digest(keyOf(h, false));
                     if (h.getSize() != want) {
                         fail("c13.size", "loaded graph has " + std::to_string(h.getSize()) + " vertices, expected 1+largest used index = " + std::to_string(want) + "; written graph " + m.str() + "; file " + visible(readFile(file)), replay);
                         continue;
@@ -381,6 +383,7 @@ template <template <class...> class GT, class L> void c14RoundTrip(int maxLen) {
                 return;
             }
             std::string bytes = readFile(file);
+            digest(bytes);
             // (i)+(ii): exactly one little-endian record per edge, in edges() order
             std::string want;
             for (auto e : g.edges()) {
